@@ -1505,15 +1505,19 @@ func (l *lexer) linebreak() bool {
 	for {
 		r, err := l.read()
 		if err != nil {
-			l.comment()
+			if hash {
+				l.comment()
+			}
 			return false
 		}
 
 		switch r {
 		case '\n':
 			// <newline>
+			if hash {
+				l.comment()
+			}
 			hash = false
-			l.comment()
 			l.mark(0)
 		case '#':
 			// comment
@@ -1534,13 +1538,11 @@ func (l *lexer) linebreak() bool {
 }
 
 func (l *lexer) comment() {
-	if l.b.Len() != 0 {
-		l.comments = append(l.comments, &ast.Comment{
-			Hash: l.pos,
-			Text: l.b.String(),
-		})
-		l.b.Reset()
-	}
+	l.comments = append(l.comments, &ast.Comment{
+		Hash: l.pos,
+		Text: l.b.String(),
+	})
+	l.b.Reset()
 }
 
 func (l *lexer) lit() {
